@@ -14,11 +14,12 @@ struct Event
     std::vector<std::string> argv;
     Env env;
     int replace = -1; // >= 0: not a parse - a freshly built parser with declaration #replace is move-assigned into the object
+    bool vec = false; // parse through parse(std::vector<user_input>) instead of parse(argc, argv)
     std::string str() const
     {
         if (replace >= 0)
             return "REPLACE-BY-DECLARATION-" + std::to_string(replace);
-        return mc::jlist(argv) + " env=" + env_json(env);
+        return mc::jlist(argv) + " env=" + env_json(env) + (vec ? " via parse(vector)" : "");
     }
 };
 
@@ -87,6 +88,13 @@ static std::vector<Event> events()
         r.replace = d;
         out.push_back(r);
     }
+    // the same object parsed through the other public entry point
+    for (size_t v : { 0u, 1u, 3u, 4u, 5u, 6u, 8u, 12u })
+    {
+        Event e{ vs[v], {} };
+        e.vec = true;
+        out.push_back(e);
+    }
     return out;
 }
 
@@ -105,7 +113,7 @@ static void set_env(const Env& env)
 static std::string outcome(nitro::options::parser& p, const Decl& D, const Event& ev)
 {
     set_env(ev.env);
-    auto r = run_on(p, D, ev.argv);
+    auto r = ev.vec ? run_on_vector(p, D, ev.argv) : run_on(p, D, ev.argv);
     return r.ok ? r.str() : "THROWS " + r.why;
 }
 
@@ -147,7 +155,7 @@ static std::string history_json(const Decl& D, const std::vector<Event>& h)
 {
     std::string evs = "[";
     for (size_t i = 0; i < h.size(); i++)
-        evs += (i ? "," : "") + mc::J().l("argv", h[i].argv).raw("env", env_json(h[i].env)).n("replace", h[i].replace).str();
+        evs += (i ? "," : "") + mc::J().l("argv", h[i].argv).raw("env", env_json(h[i].env)).n("replace", h[i].replace).b("vector_entry", h[i].vec).str();
     evs += "]";
     return mc::J().s("decl", D.str()).raw("declaration", decl_json(D)).raw("history", evs).str();
 }
@@ -201,7 +209,7 @@ static std::string event_class(const Decl& D, const Event& e)
     if (e.replace >= 0)
         return "[REPLACE]";
     auto r = refparse(D, e.argv, e.env);
-    return "[" + class_seq(D, e.argv) + (e.env.empty() ? "" : " |env") + (r.ok ? " ok" : " fails") + "]";
+    return "[" + class_seq(D, e.argv) + (e.env.empty() ? "" : " |env") + (e.vec ? " |vector" : "") + (r.ok ? " ok" : " fails") + "]";
 }
 
 static void report(const Decl& D, std::vector<Event> h, mc::Report& rep, long idx)
@@ -246,7 +254,11 @@ int main(int argc, char** argv)
         Decl D = decl_from(w.at("declaration"));
         std::vector<Event> h;
         for (auto& e : w.at("history").arr)
-            h.push_back({ e.strings("argv"), env_from(e), static_cast<int>(e.n("replace", -1)) });
+        {
+            Event ev{ e.strings("argv"), env_from(e), static_cast<int>(e.n("replace", -1)) };
+            ev.vec = e.has("vector_entry") && e.flag("vector_entry");
+            h.push_back(ev);
+        }
         std::string detail;
         int at = run_history(D, h, &detail);
         printf("replay C14: declaration %s, %zu events\n  %s\n", D.str().c_str(), h.size(),
